@@ -11,6 +11,7 @@ import (
 	"strconv"
 	"strings"
 	"sync"
+	"sync/atomic"
 	"time"
 )
 
@@ -266,10 +267,14 @@ type Pool struct {
 	n       int
 	Queries int
 	TotalMS int64
+	MaxMS   int64
 	base    string
 }
 
 func newPool(name string, n int) *Pool { return &Pool{name: name, n: n} }
+
+// slowestQueryMS: the slowest single solver query of the run over all pools (reported next to the per-query limit)
+var slowestQueryMS int64
 
 func (p *Pool) get() *Solver {
 	p.mu.Lock()
@@ -313,7 +318,16 @@ func (p *Pool) query(body string, vars []string, timeout time.Duration) QueryRes
 	p.mu.Lock()
 	p.Queries++
 	p.TotalMS += r.MS
+	if r.MS > p.MaxMS {
+		p.MaxMS = r.MS
+	}
 	p.mu.Unlock()
+	for {
+		cur := atomic.LoadInt64(&slowestQueryMS)
+		if r.MS <= cur || atomic.CompareAndSwapInt64(&slowestQueryMS, cur, r.MS) {
+			break
+		}
+	}
 	return r
 }
 
